@@ -1,6 +1,6 @@
 (* Driver for the extracted C19 specification (S) and model (M).
      tools_model ad   <cases>        nt n maxcnt lim relnum relden a.. b..   -> "M nd i.. ; S nd i.."
-     tools_model hd   <pairs>        lines "desc1 desc2"                    -> "S exit ; M exit nfound ; T flags:name .. ; O nfound_before_repair"
+     tools_model hd   <pairs>        lines "desc1 desc2"                    -> "S exit ; M exit nfound ; T flags:name .. ; W count_with_one_sided_entries_counted"
      tools_model dump <desc>         -> per object "D name tok tok ..."  (integer objects; "D name unsupported" otherwise)
      tools_model imp  <cases>        lines "outbits textfile"               -> "M r d.. ; v.." | "M fail"
      tools_model pos  <cases>        lines "rank d.. k"                     -> "M p.. ; S p.."
@@ -92,8 +92,8 @@ let mode_hd path =
           | Both (a, _) -> "xx:" ^ string_of_chars a.o_name
           | Only1 a -> "x-:" ^ string_of_chars a.o_name
           | Only2 a -> "-x:" ^ string_of_chars a.o_name) (cmatch f1.f_objs f2.f_objs)) in
-      Printf.printf "S %s ; M %s %s ; T %s ; O %s\n" (zs [spec_exit f1 f2]) (zs [hdiff_exit_m f1 f2]) (zs [hdiff_m f1 f2]) tbl
-        (zs [match_orig f1.f_objs f2.f_objs])
+      Printf.printf "S %s ; M %s %s ; T %s ; W %s\n" (zs [spec_exit f1 f2]) (zs [hdiff_exit_m f1 f2]) (zs [hdiff_m f1 f2]) tbl
+        (zs [match_wanted f1.f_objs f2.f_objs])
     | _ -> print_string "S badline ; M badline\n") (read_lines path)
 
 let opt_toks f l = String.concat " " (List.map (fun v -> match f v with Some t -> string_of_chars t | None -> "?") l)
